@@ -53,7 +53,7 @@ package persistence
 //@   trusted
 //@   modifies heap(alloc), ghost obs.today_err, ghost obs.today
 //@   ensures obs.today_err == err && obs.today == st
-//@   ensures err == nil ==> st != nil
+//@   ensures [assumed_cache_holds_only_loaded_statuses] err == nil ==> st != nil
 
 // ---------------------------------------------------------------------------------------------
 // Interface contracts of the DAG store and of the history operations used when a DAG is renamed or deleted
@@ -141,7 +141,8 @@ package persistence
 //@   trusted
 //@   modifies heap(alloc), ghost obs.find_calls, ghost obs.find_sf, ghost obs.find_err, ghost obs.find_loc, ghost obs.find_id
 //@   ensures obs.find_calls == old(obs.find_calls) + 1 && obs.find_sf == sf && obs.find_err == err && obs.find_loc == dagFile && obs.find_id == requestID
-//@   ensures err == nil ==> (sf != nil && sf.Status != nil && (forall i int :: 0 <= i && i < len(sf.Status.Nodes) ==> sf.Status.Nodes[i] != nil))
+//@   ensures err == nil ==> (sf != nil && sf.Status != nil)
+//@   ensures [assumed_recorded_node_entries_are_not_null] err == nil ==> (forall i int :: 0 <= i && i < len(sf.Status.Nodes) ==> sf.Status.Nodes[i] != nil)
 //@ fn (HistoryStore).Update(hs, dagFile, requestID, st) (err)
 //@   props C20
 //@   trusted
